@@ -11,7 +11,7 @@ import (
 )
 
 var c07Floor = []string{"cte.1", "cte.chain2", "cte.chain3", "cte.twice.join", "cte.twice.union", "cte.twice.insub", "cte.selector", "derived", "derived.where",
-	"subq.nested", "subq.root", "subq.in", "subq.agg", "exists", "exists.outer", "subq.root-correlated", "derived.join", "subq.with", "agg.stages", "inner.agg", "inner.order", "inner.filter"}
+	"subq.nested", "subq.root", "subq.in", "subq.agg", "exists", "exists.outer", "subq.root-correlated", "derived.join", "subq.with", "agg.stages", "inner.agg", "inner.order", "inner.filter", "cte.mixedcase", "exists.outer.marker"}
 
 func init() {
 	fw.Register(&fw.Prop{
@@ -273,8 +273,13 @@ func c07Run(c *fw.Case) {
 		cur := t
 		from := "t1"
 		var stagedSQL []string
+		// the name of an intermediate result does not matter: lower-case, mixed-case, upper-case
+		nameFmt := gen.Pick(c.R, []string{"c%d", "c%d", "Big%d", "topC%d", "CT%d"})
+		if nameFmt != "c%d" {
+			feats = append(feats, "cte.mixedcase")
+		}
 		for i := 1; i <= n; i++ {
-			name := fmt.Sprintf("c%d", i)
+			name := fmt.Sprintf(nameFmt, i)
 			var inner string
 			if kind == "cte.selector" {
 				inner = "SELECT rid, n1, arr, obj FROM t1"
@@ -733,7 +738,15 @@ func c07Run(c *fw.Case) {
 		if neg {
 			composed += "NOT "
 		}
-		composed += "EXISTS (SELECT e FROM arr WHERE " + gen.RenderPred(p, gen.RenderOpts{}) + ")"
+		ro := gen.RenderOpts{}
+		if kind == "exists.outer" && c.Chance(0.5) {
+			// the outer column mentioned through the marker; the root document
+			// carries a decoy of the same name with a value no row has
+			ro.ColText = map[string]string{"n1": gen.Pick(c.R, []string{"`<-n1`", "`<-.n1`"})}
+			doc["n1"] = 987654.0
+			feats = append(feats, "exists.outer.marker")
+		}
+		composed += "EXISTS (SELECT e FROM arr WHERE " + gen.RenderPred(p, ro) + ")"
 		var want []any
 		trues := 0
 		for _, row := range t.Rows {
